@@ -1,6 +1,7 @@
 package main
 
 import (
+	"math/big"
 	"reflect"
 	"sync/atomic"
 
@@ -308,6 +309,20 @@ func (v View) RunPush(kind string, k int) (out [][2]int, ok bool) {
 // (rep empty: finite type), v1/v2 through the VerifNewNumber hook; kind "G": v3 NewNumber(generator) with the raw
 // stream raw ++ rep^omega (may misbehave), v1/v2 the hook (raw values must then be digits or -1).
 func makeTestNumber(ver, kind string, raw, rep []int, exp int) (View, *Source, string) {
+	if kind == "Q" || kind == "S" || kind == "C" {
+		ctor := map[string]string{"Q": "FromBigRat", "S": "SqrtBigRat", "C": "CubeRootBigRat"}[kind]
+		n := makeRoot(ver, ctor, big.NewInt(int64(raw[0])), big.NewInt(int64(raw[1])))
+		switch ver {
+		case "v1":
+			return View{ver: ver, s1: n.(*v1.Number)}, nil, ""
+		case "v2":
+			return View{ver: ver, s2: n.(*v2.Number)}, nil, ""
+		}
+		return View{ver: ver, s3: n.(v3.Number)}, nil, ""
+	}
+	if len(rep) == 0 && exp%2 == 0 {
+		rep = nil // NewNumberForTesting must treat nil and empty alike
+	}
 	src := &Source{raw: raw, rep: rep}
 	switch ver {
 	case "v1":
